@@ -55,7 +55,7 @@ lyplg_type_store_date_and_time(const struct ly_ctx *ctx, const struct lysc_type 
     LY_ERR ret = LY_SUCCESS;
     struct lyd_value_date_and_time *val;
     uint32_t i;
-    char c;
+    char c, *str = NULL;
 
     /* init storage */
     memset(storage, 0, sizeof *storage);
@@ -101,8 +101,12 @@ lyplg_type_store_date_and_time(const struct ly_ctx *ctx, const struct lysc_type 
     ret = lyplg_type_check_hints(hints, value, value_len, type->basetype, NULL, err);
     LY_CHECK_GOTO(ret, cleanup);
 
+    /* the value does not have to be terminated, the function needs a string */
+    str = strndup(value, value_len);
+    LY_CHECK_ERR_GOTO(!str, ret = LY_EMEM, cleanup);
+
     /* convert to UNIX time and fractions of second, function must check for all the possible errors */
-    if (ly_time_str2time(value, &val->time, &val->fractions_s)) {
+    if (ly_time_str2time(str, &val->time, &val->fractions_s)) {
         ret = ly_err_new(err, LY_EVALID, 0, NULL, NULL, "%s", ly_last_logmsg());
         goto cleanup;
     }
@@ -125,6 +129,7 @@ lyplg_type_store_date_and_time(const struct ly_ctx *ctx, const struct lysc_type 
     }
 
 cleanup:
+    free(str);
     if (options & LYPLG_TYPE_STORE_DYNAMIC) {
         free((void *)value);
     }
